@@ -1,19 +1,28 @@
 (* Corr/C12.v — correspondence runner for Resp.next *)
 From Coq Require Import List Arith Bool.
-From Verif Require Import Base.StrX Gen.StatusClass Model.C12_Retry.
+From Verif Require Import Base.StrX Gen.StatusClass Model.C12_Retry Model.C12_Backoff.
 Import ListNotations.
 
 (* observed: hosts attempted in order; result code 0 = success at host (second component), 1 = retry limit,
    2 = all requests failed *)
-Record case := mkCase { c_limit : nat; c_ignore : bool; c_nomirrors : bool; c_mirrors : list host; c_up : host;
-                        c_replies : list reply; c_attempts : list nat; c_res : nat * nat }.
+(* mkBackoff: a series of requests to one host; the (backoff count, success count) pairs the hook showed at every
+   request must be those of the bookkeeping model *)
+Inductive case :=
+| mkCase (c_limit : nat) (c_ignore : bool) (c_nomirrors : bool) (c_mirrors : list host) (c_up : host)
+         (c_replies : list reply) (c_attempts : list nat) (c_res : nat * nat)
+| mkBackoff (limit : nat) (events : list bev) (counters : list (nat * nat)).
 
 Definition res_code (r : result) : nat * nat :=
   match r with Success h => (0, h) | RetryLimit => (1, 0) | AllFailed => (2, 0) | OutOfFuel => (9, 0) end.
 
+Definition pair_eqb (a b : nat * nat) : bool := Nat.eqb (fst a) (fst b) && Nat.eqb (snd a) (snd b).
 Definition check (c : case) : bool :=
-  let '(tr, r) := do_request (c_limit c) (c_ignore c) (c_nomirrors c) (c_mirrors c) (c_up c) (c_replies c) in
-  list_eqb Nat.eqb tr (c_attempts c) && Nat.eqb (fst (res_code r)) (fst (c_res c)) && Nat.eqb (snd (res_code r)) (snd (c_res c)).
+  match c with
+  | mkCase c_limit c_ignore c_nomirrors c_mirrors c_up c_replies c_attempts c_res =>
+      let '(tr, r) := do_request c_limit c_ignore c_nomirrors c_mirrors c_up c_replies in
+      list_eqb Nat.eqb tr c_attempts && Nat.eqb (fst (res_code r)) (fst c_res) && Nat.eqb (snd (res_code r)) (snd c_res)
+  | mkBackoff limit events counters => list_eqb pair_eqb (bcounters limit b0 events) counters
+  end.
 
 Fixpoint mismatches_from (i : nat) (cs : list case) : list nat :=
   match cs with
